@@ -494,6 +494,10 @@ type extra struct {
 	RemoveOrphans bool `json:"remove_orphans"`
 	// Txs is the sub-alphabet of this search (indices into txs)
 	Txs []int `json:"txs"`
+	// Cap > 0: the pool holds at most Cap transactions and Cap orphans (package limits overridden through a hook).
+	// What a full pool does with a submission is not part of the reference model: these searches evaluate the
+	// invariants of the statement on the implementation's state only (indexes consistent with pool and orphans).
+	Cap int `json:"cap"`
 }
 
 func runHist(h []int, raw json.RawMessage) (out xplore.Out) {
@@ -509,6 +513,10 @@ func runHist(h []int, raw json.RawMessage) (out xplore.Out) {
 	defer db.Wipe()
 	height := nd.Chain.BestBlockHeight()
 	ttl := protocol.VerifOrphanTTL()
+	if ex.Cap > 0 {
+		a, b := protocol.VerifSetPoolLimits(ex.Cap, ex.Cap)
+		defer protocol.VerifSetPoolLimits(a, b)
+	}
 	m := &model{pool: map[int]bool{}}
 	v := &viols{}
 	var s *snap
@@ -593,6 +601,9 @@ func runHist(h []int, raw json.RawMessage) (out xplore.Out) {
 		}
 		out.Checks++
 		invariants(v, s, op, before)
+		if ex.Cap > 0 {
+			continue // capacity searches: implementation-state invariants only
+		}
 		mo := map[int]bool{}
 		for _, o := range m.orph {
 			mo[o] = true
@@ -652,6 +663,20 @@ func runHist(h []int, raw json.RawMessage) (out xplore.Out) {
 		out.Prune = true
 		return
 	}
+	if ex.Cap > 0 {
+		// successors from the implementation's state
+		for _, i := range ex.Txs {
+			if !s.pool[i] {
+				out.Enabled = append(out.Enabled, opSubmit+i)
+			} else {
+				out.Enabled = append(out.Enabled, opRemove+i)
+			}
+		}
+		if len(s.orph) > 0 {
+			out.Enabled = append(out.Enabled, opExpAll)
+		}
+		return
+	}
 	// successors, from the model (= implementation, the state is violation-free)
 	for _, i := range ex.Txs {
 		if ex.Mode == "chain" || !m.pool[i] {
@@ -697,6 +722,8 @@ func main() {
 			{"triangles t1,t2,t9,t10/ProcessTransaction", []int{0, 1, 8, 9}, "pool", 6},
 			{"triangles t1,t3,t7,t8/ValidateTx", []int{0, 2, 6, 7}, "chain", 4},
 			{"triangles t1,t2,t9,t10/ValidateTx", []int{0, 1, 8, 9}, "chain", 4},
+			{"dag6/ProcessTransaction/capacity-1", base, "pool", -5},
+			{"dag6/ProcessTransaction/capacity-2", base, "pool", -4},
 		}
 	} else {
 		searches = []search{
@@ -708,13 +735,25 @@ func main() {
 			{"triangles t1,t2,t9,t10/ValidateTx", []int{0, 1, 8, 9}, "chain", 12},
 			{"all triangles t1,t2,t3,t7..t10/ProcessTransaction", []int{0, 1, 2, 6, 7, 8, 9}, "pool", 7},
 			{"all ten/ProcessTransaction", []int{0, 1, 2, 3, 4, 5, 6, 7, 8, 9}, "pool", 5},
+			{"dag6/ProcessTransaction/capacity-1", base, "pool", -7},
+			{"dag6/ProcessTransaction/capacity-2", base, "pool", -7},
+			{"dag6/ValidateTx/capacity-2", base, "chain", -6},
 		}
 	}
 	var states, transitions, checks, maxDepth int
 	per := map[string]interface{}{}
 	for _, sr := range searches {
 		spec.MaxDepth = sr.depth
-		spec.Extra = extra{Mode: sr.mode, RemoveOrphans: run.Thorough(), Txs: sr.txs}
+		capacity := 0
+		if sr.depth < 0 {
+			// negative depth marks a capacity search (capacity from the name)
+			spec.MaxDepth = -sr.depth
+			capacity = 2
+			if strings.HasSuffix(sr.name, "capacity-1") {
+				capacity = 1
+			}
+		}
+		spec.Extra = extra{Mode: sr.mode, RemoveOrphans: run.Thorough(), Txs: sr.txs, Cap: capacity}
 		st := xplore.BFS(run, spec)
 		states += st.States
 		transitions += st.Transitions
